@@ -230,8 +230,8 @@ struct Machine {
             if (is_prefix(t.ref.path, cont.path)) return e;
             if (slot && is_prefix(*slot, t.ref.path)) { if (t.ref.path.size() != slot->size()) return e; e.same_slot = true; }
         }
-        Value *m = resolve(t.ref); if (!m) return e;
-        if (m->nodes() > MAXELEM || owner_nodes(cont.owner) + m->nodes() > MAXNODES) return e;
+        Value *m = resolve(t.ref); if (!m) return Elem();
+        if (!e.same_slot && (m->nodes() > MAXELEM || owner_nodes(cont.owner) + m->nodes() > MAXNODES)) return Elem();   // size caps (nothing is copied in the aliasing case)
         e.real = t.real; e.has = true; e.ref = t.ref; e.m = *m;
         return e;
     }
@@ -647,7 +647,7 @@ struct Machine {
         bool exists = ii >= 0;
         // known finding F-PKTKEY-UAF: cif_packet_set_item with a different spelling of a name that cif_packet_create received in
         // already-normalised form frees the hash key of that entry (map.c:182).  Excluded by construction: the stored spelling is used.
-        if (op.code == O_PSET && exists && p.items[ii].aliased && p.items[ii].name != name && !allowed(F_PKTKEY)) { count_excluded(F_PKTKEY); name = p.items[ii].name; }
+        // (fixed in /repo: the case is searched like any other)
         if (exists && p.items[ii].name != name) label("name:respelled-equivalent");
         Ref cont; cont.owner = p.id;
         Path slotp; slotp.push_back(keystep(nn)); Ref slot{p.id, slotp};
@@ -874,7 +874,7 @@ int main(int argc, char **argv) {
             ops.insert(ops.end(), body.begin(), body.end());
             if ((int) ops.size() > maxops) ops.resize((size_t) maxops);
             CaseFile c; c.set("ops", ser_ops(ops));
-            begin_case(c);
+            VH_BEGIN(c);
             note("ops_generated", (long) ops.size());
             { std::string s; for (size_t i = 0; i < ops.size() && i < 10; i++) { s += show(ops[i]); s += "; "; } if (ops.size() > 10) s += "... (" + std::to_string(ops.size()) + " ops)"; sample(s); }
             std::string m = run_case(c);
